@@ -753,7 +753,36 @@ func elemCycleGraph(shape string) *exGraph {
 	return exFromGeneric(map[string]interface{}{root: r, other: o}, root)
 }
 
+// longChainGraph: d00 -> d01 -> ... -> d40 through one property each; the last one is a leaf, or refers back to d38
+func longChainGraph(shape string) *exGraph {
+	type m = map[string]interface{}
+	const n = 40
+	root, other := "file:///lc/root.json", "file:///lc/chain.json"
+	defs := m{}
+	for i := 0; i <= n; i++ {
+		d := m{"type": "object", "description": fmt.Sprintf("node %d", i)}
+		if i < n {
+			d["properties"] = m{"next": m{"$ref": fmt.Sprintf("#/definitions/d%02d", i+1)}}
+		} else if shape == "long-lead-in" {
+			d["properties"] = m{"back": m{"$ref": fmt.Sprintf("#/definitions/d%02d", n-2)}}
+		}
+		defs[fmt.Sprintf("d%02d", i)] = d
+	}
+	r := m{"swagger": "2.0", "info": m{"title": "t", "version": "1"}, "paths": m{}}
+	if shape == "long-chain-other-doc" {
+		r["definitions"] = m{"entry": m{"$ref": "chain.json#/definitions/d00"}}
+		return exFromGeneric(m{root: r, other: m{"definitions": defs}}, root)
+	}
+	r["definitions"] = defs
+	return exFromGeneric(m{root: r}, root)
+}
+
 func checkElemCycle(in elemCycleInput) []exFinding {
+	if strings.HasPrefix(in.Shape, "long-") {
+		x := exInputOf(longChainGraph(in.Shape))
+		x.Opts = &exOpts{Abs: in.Abs}
+		return checkC03(x)
+	}
 	if in.Spell != "" {
 		x := exInputOf(exFromGeneric(spellCycleDocs(spellCycleInput{Root: in.Root, Spell: in.Spell, Shape: in.Shape}), in.Root))
 		x.Opts = &exOpts{Abs: in.Abs}
@@ -802,6 +831,22 @@ func oracleC03Cyc(r *rng, n int, tier string) *oracleResult {
 					res.Stats["fail:"+f.Shape]++
 					res.Failures = append(res.Failures, failure{Property: "C03", What: "cycle through references spelled " + c.spell + ": " + f.What, Shape: "spelled-cycle:" + f.Shape, Input: in, Observed: f.Obs, Expected: f.Exp})
 				}
+			}
+		}
+	}
+	// long chains of references (more hops than any fixed depth a guard might pick): acyclic, so nothing remains; and as the
+	// lead-in into a cycle, so only the cut-point of the cycle remains
+	for _, sh := range []string{"long-chain", "long-chain-other-doc", "long-lead-in"} {
+		for _, abs := range []bool{false, true} {
+			in := elemCycleInput{Shape: sh, Abs: abs}
+			res.Evaluations++
+			res.Distinct++
+			for _, f := range checkElemCycle(in) {
+				if strings.HasPrefix(f.Shape, "stat:") {
+					continue
+				}
+				res.Stats["fail:"+f.Shape]++
+				res.Failures = append(res.Failures, failure{Property: "C03", What: "chain of 40 references (" + sh + "): " + f.What, Shape: "long-chain:" + f.Shape, Input: in, Observed: f.Obs, Expected: f.Exp})
 			}
 		}
 	}
